@@ -33,6 +33,53 @@ void h_sc_reduce_512(void) {
     __CPROVER_assert(sval(&r) < N_(), "C05 scalar_reduce_512: result is a reduced scalar (r < n) for every 512-bit input");
     REACH("scalar_reduce_512 completed");
 }
+#if !defined(USE_FORCE_WIDEMUL_INT64)
+/* Value of scalar_reduce_512.  Mathematical definition used: for x = lo + hi 2^256 (lo < 2^256),
+ *      fold(x) = lo + hi (2^256 - n)   is congruent to x modulo n   (because 2^256 == 2^256 - n mod n),
+ * so r = fold(fold(fold(l))) reduced once more by n (it is < 2 n) equals l mod n.  fold is written limb-wise
+ * (hi = sum h_i 2^(64 i); 2^256 - n = NC0 + NC1 2^64 + 2^128) so that the solver sees the same 64x64 products by the
+ * constants NC0, NC1 as in the code and only has to prove the carry handling. */
+typedef unsigned __CPROVER_bitvector[640] wide2;
+#define W2(x) ((wide2)(x))
+static wide2 sa_fold_n(wide2 x) {
+    wide2 mask = (W2(1) << 256) - 1, lo = x & mask, hi = x >> 256, acc = lo; int i;
+    for (i = 0; i < 5; i++) {
+        uint64_t h = (uint64_t)(hi >> (64 * i));
+        acc = acc + (W2((unsigned __int128)h * SA_NC0) << (64 * i)) + (W2((unsigned __int128)h * SA_NC1) << (64 * (i + 1))) + (W2(h) << (64 * (i + 2)));
+    }
+    return acc;
+}
+/* Value of scalar_mul_512 / sqr_512 relative to the 64x64 multiplier umul (uninterpreted, see assumed_C05.h):
+ *      l == sum_{i,j} umul(a_i, b_j) 2^(64 (i+j))        (schoolbook definition of the 512-bit product)
+ * i.e. everything except the meaning of the single-limb multiplier: carries, column order, limb placement. */
+void h_sc_mul_512_value(void) {
+    INPUT(secp256k1_scalar, a); INPUT(secp256k1_scalar, b); INPUT(_Bool, sqr);
+    uint64_t l[8]; wide2 L = 0, S = 0; int i, j;
+    if (sqr) { secp256k1_scalar_sqr_512(l, &a); b = a; } else secp256k1_scalar_mul_512(l, &a, &b);
+    for (i = 7; i >= 0; i--) L = (L << 64) | W2(l[i]);
+    for (i = 0; i < 4; i++) for (j = 0; j < 4; j++) S = S + (W2(SA_UMUL(a.d[i], b.d[j])) << (64 * (i + j)));
+    if (!sqr) __CPROVER_assert(L == S, "C05 scalar_mul_512: l == sum umul(a_i, b_j) 2^(64(i+j))");
+    /* sqr_512 uses each cross product once and doubles it: needs umul(x,y) == umul(y,x), which is NOT an axiom of the
+     * uninterpreted multiplier; stated with the products the code uses: a_i a_j for i <= j */
+    if (sqr) {
+        S = 0;
+        for (i = 0; i < 4; i++) for (j = i; j < 4; j++) S = S + (W2(SA_UMUL(a.d[i], a.d[j])) << (64 * (i + j) + (i != j)));
+        __CPROVER_assert(L == S, "C05 scalar_sqr_512: l == sum_{i<=j} (2 - [i=j]) umul(a_i, a_j) 2^(64(i+j))");
+    }
+    if (sqr) REACH("scalar_sqr_512 value"); else REACH("scalar_mul_512 value");
+}
+void h_sc_reduce_512_value(void) {
+    INPUT_ARR(uint64_t, lv, 8);
+    secp256k1_scalar r; wide2 L = 0, R; int i;
+    for (i = 7; i >= 0; i--) L = (L << 64) | W2(lv[i]);
+    secp256k1_scalar_reduce_512(&r, lv);
+    R = sa_fold_n(sa_fold_n(sa_fold_n(L)));
+    __CPROVER_assert(R < (W2(N_()) << 1), "C05 scalar_reduce_512 spec: three folds leave a value below 2 n");
+    __CPROVER_assert(W2(sval(&r)) == (R >= W2(N_()) ? R - W2(N_()) : R), "C05 scalar_reduce_512: r == l mod n (three folds by 2^256 == 2^256 - n, then one conditional subtraction)");
+    if (R >= W2(N_())) REACH("scalar_reduce_512 final subtraction needed");
+    if ((L >> 256) == 0 && L >= W2(N_())) REACH("scalar_reduce_512 small input above n");
+}
+#endif
 void h_sc_mul_shift(void) {
     INPUT(secp256k1_scalar, a); INPUT(secp256k1_scalar, b); INPUT(unsigned, shift);
     secp256k1_scalar r;
